@@ -33,7 +33,7 @@ class HarnessError(Exception):
 
 
 BRANCH_TIMEOUT_MS = 2000
-PROVE_TIMEOUT_MS = 20000
+PROVE_TIMEOUT_MS = 45000
 PRIMARY_TIMEOUT_MS = 150
 import os as _os
 SLOW_LOG_S = float(_os.environ.get('SYMX_SLOW', '1e9'))
@@ -224,6 +224,8 @@ class Ctx:
         self.unknown_here = False
         self._pending = []
         self._fallbacks = 0
+        self._decided = {}
+        self._keep = []
         from . import lin as _lin
         _lin.reset_atoms()
         if self.mode == "sym":
@@ -300,11 +302,26 @@ class Ctx:
         """Decide a symbolic condition; returns a python bool and records the decision."""
         if self.mode != "sym":
             raise HarnessError("symbolic branch in concrete mode")
+        rid = cond.get_id()
+        hit = self._decided.get(rid)
+        if hit is not None:
+            return hit          # the very same condition was already decided on this path
+        raw = cond
         cond = z3.simplify(cond)
         if z3.is_true(cond):
+            self._decided[rid] = True
+            self._keep.append(raw)
             return True
         if z3.is_false(cond):
+            self._decided[rid] = False
+            self._keep.append(raw)
             return False
+        cid = cond.get_id()
+        hit = self._decided.get(cid)
+        if hit is not None:
+            self._decided[rid] = hit
+            self._keep.append(raw)
+            return hit
         i = len(self.decisions)
         if i < len(self.prefix):
             d = self.prefix[i]
@@ -355,6 +372,10 @@ class Ctx:
             self.stats["decisions"] += 1
         self.decisions.append(d)
         self.add(cond if d else z3.Not(cond))
+        self._decided[cid] = d
+        self._decided[rid] = d
+        self._keep.append(cond)     # keeps the ASTs (and with them the ids) alive for the rest of the path
+        self._keep.append(raw)
         return d
 
     def assume(self, *conds):
@@ -438,7 +459,8 @@ class Ctx:
             self.add(n >= to_us(lo))
         if hi is not None:
             self.add(n <= to_us(hi))
-        return SymDT(n)
+        from .lin import Lin
+        return SymDT(Lin.atom(n))
 
     def choice(self, name, n):
         """Solver-chosen integer in range(n); forks so that the result is a concrete python int."""
@@ -647,7 +669,8 @@ def explore(fn, kwargs=None, prefixes=None, max_paths=100000, deadline=None, fro
         if ctx.stats["paths"] >= max_paths or (deadline is not None and time.time() > deadline):
             incomplete = True
             break
-        if frontier is not None and len(ctx.worklist) >= frontier:
+        if frontier is not None and (len(ctx.worklist) >= frontier or
+                                     (ctx.stats["paths"] >= frontier and len(ctx.worklist) >= 16)):
             break
         prefix = ctx.worklist.popleft() if frontier is not None else ctx.worklist.pop()
         Ctx.cur = ctx
@@ -728,9 +751,12 @@ def explore(fn, kwargs=None, prefixes=None, max_paths=100000, deadline=None, fro
                 elif not inexact and sym_obs != con_obs:
                     diff = [(s, c) for s, c in itertools.zip_longest(sym_obs, con_obs) if s != c][:3]
                     mismatches.append(dict(assign=a, why="observations differ: %r" % (diff,)))
-                elif rc.failed and not inexact:
-                    mismatches.append(dict(assign=a, why="obligation %s fails concretely but was discharged" %
-                                           rc.failed[0][0]))
+                else:
+                    here = {c["label"] for c in ctx.candidates[ncand:]}
+                    bad = [l for l, _ in rc.failed if l not in here]
+                    if bad and not inexact:
+                        mismatches.append(dict(assign=a, why="obligation %s fails concretely but was discharged" %
+                                               bad[0]))
     Ctx.cur = None
     st = dict(ctx.stats)
     st["wall_s"] = time.perf_counter() - t0
@@ -755,7 +781,8 @@ def _eval_obs(model, v):
     if isinstance(v, SymReal):
         return "real"
     if isinstance(v, SymDT):
-        return "dt%d" % _model_value(model, v._e)
+        from .lin import value as _lv
+        return "dt%d" % _lv(model, v._e)
     if isinstance(v, SymBool):
         return str(bool(_model_value(model, v.e)))
     if isinstance(v, Decimal):
